@@ -101,6 +101,27 @@ def trajectory_native(vc):
     Cr = (R.T @ R) / R.shape[0]
     vc.inputs["momentum_covariance_error"] = float(np.abs(Cr - Mm).max() / np.abs(Mm).max())
     vc.ensures("momentum_covariance_is_the_mass_matrix", float(np.abs(Cr - Mm).max()) < 0.12 * float(np.abs(Mm).max()))
+    # ... and the momenta that take_step actually hands to the integrator are such draws (at every temperature): E[2 K(r0)] = d
+    used = []
+    real_leapfrog = ch.run_leapfrog
+
+    def recording(t, r, n):
+        used.append(np.array(r, dtype=float).copy())
+        return real_leapfrog(t, r, n)
+    ch.run_leapfrog = recording
+    ch.ES.epsilon = 0.05 if not bounded_ else 0.05 * float(np.min(bounds[1] - bounds[0]))
+    try:
+        from contracts.common import quiet as _quiet
+        with np.errstate(all="ignore"):
+            _quiet(ch.advance, 150)
+    except ValueError:
+        pass          # (may give up after max_attempts: documented)
+    finally:
+        ch.run_leapfrog = real_leapfrog
+    if len(used) >= 100:
+        k2_ = float(np.mean([2.0 * ch.kinetic_energy(r) for r in used])) / d
+        vc.inputs["mean_of_2K_over_d_for_the_momenta_used_by_take_step"] = k2_
+        vc.ensures("momenta_used_by_take_step_follow_the_kinetic_energy", abs(k2_ - 1.0) < 0.3)
 
 
 @bounded("C07", "finite_difference_native", native_runs=20)
